@@ -74,8 +74,7 @@ Theorem live_step w g r k r0 :
                 g_get g (rq_client r) = Some (content_of rc).
 Proof.
   intros HJ Hwf Hpj Hjar HL Hrf Hval Hcfg.
-  unfold wf_req in Hwf. apply andb_prop in Hwf. destruct Hwf as [Hwf Hscr].
-  apply andb_prop in Hwf. destruct Hwf as [Hpl Hcr].
+  unfold wf_req in Hwf. apply andb_prop in Hwf. destruct Hwf as [Hpl Hcr].
   assert (Hpl' : rq_plan r = []) by (destruct (rq_plan r); [reflexivity | discriminate]).
   assert (Hcr' : rq_crash r = None) by (destruct (rq_crash r); [discriminate | reflexivity]).
   destruct (start_live w r k r0 (ji_pf _ _ HJ) HL Hrf Hval Hcfg) as (s' & o & id & rc & cks & Hs & Hg & Hct & Hck).
